@@ -21,6 +21,7 @@ pub fn val_inc(p: (I, I)) -> (I, I) { (p.0, p.1 + 1) }
 pub fn join_sum(p: (I, (I, I))) -> (I, I) { (p.0, p.1.0 + p.1.1) }
 pub fn join_right(p: (I, (I, I))) -> I { p.1.1 }
 pub fn mul10(x: I) -> I { 10 * x }
+pub fn add10(x: I) -> I { x + 10 }
 /// enumerate yields (index, item) with an inferred integer index type
 pub fn enum_fix<T>(p: (i32, T)) -> (I, T) { (p.0 as I, p.1) }
 
@@ -28,6 +29,8 @@ pub fn enum_fix<T>(p: (i32, T)) -> (I, T) { (p.0 as I, p.1) }
 pub fn is_even(x: &I) -> bool { x.rem_euclid(2) == 0 }
 pub fn lt3(x: &I) -> bool { *x < 3 }
 pub fn lt6(x: &I) -> bool { *x < 6 }
+pub fn eq3(x: &I) -> bool { *x == 3 }
+pub fn eq13(x: &I) -> bool { *x == 13 }
 pub fn lt100(x: &I) -> bool { *x < 100 }
 pub fn gt1(x: &I) -> bool { *x > 1 }
 pub fn key_even(p: &(I, I)) -> bool { p.0.rem_euclid(2) == 0 }
